@@ -448,6 +448,18 @@ impl TxInputsBuilder {
     }
 
     fn push_input(&mut self, e: (TxBuilderInput, Option<ScriptHash>)) {
+        // registering an input again as a key or bootstrap input replaces the earlier registration,
+        // together with the script witness the earlier one required
+        if e.1.is_none() {
+            if let Some((_, Some(old_hash))) = self.inputs.get(&e.0.input) {
+                if let Some(script_inputs) = self.required_witnesses.scripts.get_mut(old_hash) {
+                    script_inputs.remove(&e.0.input);
+                    if script_inputs.is_empty() {
+                        self.required_witnesses.scripts.remove(old_hash);
+                    }
+                }
+            }
+        }
         self.inputs.insert(e.0.input.clone(), e);
     }
 
